@@ -1916,6 +1916,8 @@ func TestVerifReplay(t *testing.T) {
 			defer func() { if r := recover(); r != nil { t.Errorf("%q: SetExpression panicked: %v", expr, r); bad++; err = fmt.Errorf("panic") } }()
 			err = c.SetExpression(expr)
 		}()
+		// the one-step constructor reports the same verdict as SetExpression
+		if c2, e2 := calculator.ExpressionCalculatorFromExpression(expr); c2 == nil || (e2 == nil) != (err == nil) { t.Errorf("%q: ExpressionCalculatorFromExpression gives (%v, %v), SetExpression %v", expr, c2 != nil, e2, err); bad++ }
 		if err != nil { continue }
 		accepted++
 		if accepted % 97 == 0 && len(sample) < 40 { sample = append(sample, expr) }
@@ -2529,6 +2531,8 @@ func TestVerifReplay(t *testing.T) {
 		panicked := false
 		func() { defer func() { if r := recover(); r != nil { t.Errorf("%q: SetTemplate panicked: %v", tpl, r); bad++; panicked = true } }(); err = m.SetTemplate(tpl) }()
 		if panicked { continue }
+		// the one-step constructor gives a template exactly when the text is accepted, an error otherwise - never both, never neither
+		if m2, e2 := mustache.NewMustacheTemplateFromString(tpl); (m2 != nil) == (e2 != nil) || (e2 == nil) != (err == nil) { t.Errorf("%q: NewMustacheTemplateFromString gives (%v, %v), SetTemplate %v", tpl, m2 != nil, e2, err); bad++ }
 		if wellFormed && err != nil { t.Errorf("%q is well-formed but was rejected: %v", tpl, err); bad++; continue }
 		if !wellFormed && err == nil { t.Errorf("%q is malformed but was accepted", tpl); bad++; continue }
 		if err != nil { continue }
